@@ -175,19 +175,23 @@ func TestVerifC13(t *testing.T) {
 			}
 		}
 	})
-	vfParallel(len(roots), func(i int) {
-		r := roots[i]
-		for _, cls := range clsNames {
-			v := classes[cls]
-			if r.Response {
-				v = strings.Replace(v, "local", "remote#", 1)
-				v = strings.Replace(v, "remote-ns", "local-ns", 1)
-				v = strings.Replace(v, "remote#", "remote", 1)
+	for _, listLen := range []int{1, 2} {
+		vrt.PopulateListLen = listLen
+		vfParallel(len(roots), func(i int) {
+			r := roots[i]
+			for _, cls := range clsNames {
+				v := classes[cls]
+				if r.Response {
+					v = strings.Replace(v, "local", "remote#", 1)
+					v = strings.Replace(v, "remote-ns", "local-ns", 1)
+					v = strings.Replace(v, "remote#", "remote", 1)
+				}
+				msg := vrt.PopulateNames(r.MD, v)
+				frame(r, msg, cls, "fully-populated:"+string(r.MD.Name()), fmt.Sprintf("fully populated (%d element(s) per repeated field)", listLen), map[string]any{"root": r.String(), "path": "(all)", "class": cls, "list_len": listLen})
 			}
-			msg := vrt.PopulateNames(r.MD, v)
-			frame(r, msg, cls, "fully-populated:"+string(r.MD.Name()), "fully populated", map[string]any{"root": r.String(), "path": "(all)", "class": cls})
-		}
-	})
+		})
+	}
+	vrt.PopulateListLen = 1
 
 	// (b) exactly-once and round trip -----------------------------------------------------------------
 	maxPairs := 2
